@@ -121,8 +121,24 @@ def sig_source(sig, fn_name='f') -> str:
 _fn_cache: dict = {}
 
 
-def make_fn(sig, species='function', fn_name=None):
-  """A recording callable of the given species with signature `sig`."""
+def make_fn(sig, species='function', fn_name=None, ann=None):
+  """A recording callable of the given species with signature `sig`.  `ann` = [[name, [tag
+  numbers]], ...] gives parameters an `Annotated[int, tags...]` annotation (functions only)."""
+  if ann:
+    import typing
+    base = make_fn(sig, species, fn_name)
+    key = (tuple(map(tuple, sig)), species, fn_name, tuple((n, tuple(ts)) for n, ts in ann))
+    if key in _fn_cache:
+      return _fn_cache[key]
+    import types
+    fn = types.FunctionType(base.__code__, base.__globals__, base.__name__, base.__defaults__,
+                            base.__closure__)
+    fn.__kwdefaults__ = base.__kwdefaults__
+    fn.__qualname__ = base.__qualname__
+    fn.__annotations__ = {n: typing.Annotated[tuple([int] + [TAGS[t] for t in ts])]
+                          for n, ts in ann}
+    _fn_cache[key] = fn
+    return fn
   key = (tuple(map(tuple, sig)), species, fn_name)
   if key in _fn_cache:
     return _fn_cache[key]
